@@ -165,7 +165,7 @@ def run_rules(ctx, chk):
         rnew = [b for b in fb.bodies(common.SHM) if b.name == 'new' and (b.impl_self or '').endswith('ShmReader') and b.defkind != 'Closure']
         for b in rnew:
             chk.saw(b)
-            eng_n = common.mk_engine(fb, inline_depth=8)
+            eng_n = common.mk_engine(fb, inline_depth=8, loop_unroll=8)
             n_ok = 0
             for q in eng_n.run(b):
                 if not (q.kind == 'return' and q.value[0] == 'agg' and q.value[2] == 'Ok' and q.value[3] and q.value[3][0][0] == 'agg'):
@@ -238,7 +238,8 @@ def run_rules(ctx, chk):
         chk.saw(b)
         # helpers are inlined so that a pointer handed out by one (a `locate_fields`-style function) keeps its
         # provenance; each store is attributed to the function whose body contains the call site
-        from .startup_model import is_reader_new
+        from .startup_model import is_reader_new, init_reader_open
+        init_reader_open(fb)
         eng = common.mk_engine(fb, inline_depth=8, no_inline=is_reader_new)
         for p in eng.run(b):
             for e in classify_effects(p):
@@ -278,8 +279,8 @@ def mmap_flags(fb, chk):
     found = 0
     # which side a mapping belongs to: the constructor that reaches it (the writer's probe of the reader's open routine
     # does not make the reader's mapping a writer mapping)
-    def is_rnew(x):
-        return x.name == 'new' and (x.impl_self or '').endswith('ShmReader')
+    from .startup_model import init_reader_open, is_reader_new as is_rnew
+    init_reader_open(fb)
     reader_sites, writer_sites = set(), set()
     for b0 in fb.bodies(common.SHM):
         if b0.name == 'new' and b0.defkind != 'Closure' and (b0.impl_self or '').endswith(('ShmReader', 'ShmWriter')):
